@@ -60,6 +60,13 @@ BRACKET_TEMPLATES = [
     ('[[:digit:]-a]', S(False, ('p', 'digit'), ('c', '-'), ('c', 'a'))),
     ('[\\]-a]', S(False, ('r', ']', 'a'))), ('[a\\-c]', S(False, ('c', 'a'), ('c', '-'), ('c', 'c'))),
     ('[a-\\-]', S(False)),   # reversed range a..-  : matches nothing
+    # a range that ends in a hyphen, followed by another range / a member / a hyphen
+    ('[+--b-d]', S(False, ('r', '+', '-'), ('r', 'b', 'd'))), ('[!+--b-d]', S(True, ('r', '+', '-'), ('r', 'b', 'd'))),
+    ('[+--ab-d]', S(False, ('r', '+', '-'), ('c', 'a'), ('r', 'b', 'd'))),
+    ('[+---a]', S(False, ('r', '+', '-'), ('c', '-'), ('c', 'a'))),
+    ('[+-\\-b-d]', S(False, ('r', '+', '-'), ('r', 'b', 'd'))),
+    ('[a-cd-fz]', S(False, ('r', 'a', 'c'), ('r', 'd', 'f'), ('c', 'z'))),
+    ('[a-c0-5-z]', S(False, ('r', 'a', 'c'), ('r', '0', '5'), ('c', '-'), ('c', 'z'))),
 ]
 
 
